@@ -67,8 +67,9 @@ def run_text(arg):
     """Base scan + a list of scripts on one text. Returns events (without ids)."""
     lang, text, scripts, npoints, origin, sd = arg
     rng = random.Random(sd)
+    fname = origin.split("/")[-1] if origin.startswith("special/") and origin.endswith((".h", ".hh")) else None
     try:
-        base = analyse(lang, text)
+        base = analyse(lang, text, fname=fname)
     except Exception as e:  # noqa: BLE001 - totality is C03's subject
         return {"skipped": "base analysis raised " + type(e).__name__, "events": [], "origin": origin}
     doc = Doc(lang, text)
@@ -98,7 +99,7 @@ def run_text(arg):
             unstable += 1
             continue
         try:
-            got = analyse(lang, new)
+            got = analyse(lang, new, fname=fname)
             exc = ""
         except Exception as e:  # noqa: BLE001
             got, exc = [], type(e).__name__
@@ -187,8 +188,12 @@ def run(tier: str) -> int:
     special += [("C", "special/mark.c", MARK["brace"]), ("C++", "special/mark.cpp", MARK["brace"]), ("C#", "special/mark.cs", "class K {\n" + MARK["brace"] + "}\n"),
                 ("Java", "special/Mark.java", "class K {\n" + MARK["brace"] + "}\n"), ("JavaScript", "special/mark.js", MARK["js"]), ("TypeScript", "special/mark.ts", MARK["js"]),
                 ("Python", "special/mark.py", MARK["py"])]
+    # headers: a file name two languages claim (x.h: C and Objective-C, x.hh: C++ and Objective-C++) - what a comment says must
+    # not decide which of them the file is
+    HDR = "#ifndef H\n#define H\nstatic int clamp(int v, int lo, int hi) {\n  if (v < lo) {\n    return lo;\n  }\n  if (v > hi) {\n    return hi;\n  }\n  return v;\n}\n\nstatic int sum(const int *xs, int n) {\n  int s = 0;\n  for (int i = 0; i < n; i++) {\n    s += xs[i];\n  }\n  return s;\n}\n#endif\n"
+    special += [("C", "special/hdr.h", HDR), ("C++", "special/hdr.hh", HDR)]
     for lang, origin, text in special:
-        for _rep in range(6 if "mark" in origin else 3):  # three independent choices of points
+        for _rep in range(6 if ("mark" in origin or "hdr" in origin) else 3):  # three independent choices of points
             sel = rng.sample(scripts, min(b["scripts_per_corpus"], len(scripts)))
             jobs.append((lang, text, sel, b["points"], origin, rng.randrange(1 << 30)))
     res = pmap(run_text, jobs, timeout=900, chunk=1)
